@@ -177,6 +177,31 @@ def directed() -> List[Dict[str, Any]]:
     sp = relocate(sub, {"a.yaml": "app/x", "b.yaml": "app", "c.yaml": "lib/y"}, "subdirs_spelled_oddly")
     sp["files"]["app/x/a.yaml"]["imports"] = ["./../b.yaml", "../../lib/../lib/y/c.yaml"]
     D.append(sp)
+    # a file reached a second time (already read: skipped) from an importer in ANOTHER directory, with more imports
+    # listed after it — every later entry of that list is still relative to the importer's own directory.  The second
+    # mention is: a diamond (b imported c before), the same entry twice, the importer itself (cycle back to the root)
+    re_imp = one({"a.yaml": {"imports": ["b.yaml", "c.yaml", "d.yaml"],
+                             "messages": [["RA", 2500, [F("b", "RB"), F("c", "RC"), F("d", "RD")]]]},
+                  "b.yaml": {"imports": ["c.yaml"], "structs": [["RB", [F("c", "RC"), F("x", "int32")]]]},
+                  "c.yaml": {"structs": [["RC", [F("v", "int32")]]]},
+                  "d.yaml": {"structs": [["RD", [F("w", "double")]]]}}, tags=["paths", "reimport"])
+    for k, dirs in enumerate([{"b.yaml": "devices", "c.yaml": "common", "d.yaml": "devices"},
+                              {"a.yaml": "app", "b.yaml": "app", "c.yaml": "lib", "d.yaml": "app/more"},
+                              {"b.yaml": "x/y", "c.yaml": "x", "d.yaml": ""},
+                              {"a.yaml": "top", "b.yaml": "", "c.yaml": "top/in", "d.yaml": "other"}]):
+        D.append(relocate(re_imp, dirs, f"reimport_dirs{k}"))
+    tw = relocate(re_imp, {"b.yaml": "devices", "c.yaml": "common", "d.yaml": "devices"}, "reimport_same_entry_twice")
+    tw["files"]["a.yaml"]["imports"] = ["common/c.yaml", "common/c.yaml", "devices/b.yaml", "common/../common/c.yaml", "devices/d.yaml"]
+    D.append(tw)
+    cy = relocate(re_imp, {"b.yaml": "devices", "c.yaml": "common", "d.yaml": "devices"}, "reimport_cycle_to_root")
+    cy["files"]["devices/b.yaml"]["imports"] = ["../a.yaml", "../common/c.yaml"]
+    cy["files"]["common/c.yaml"]["imports"] = ["../devices/b.yaml", "../a.yaml", "../devices/d.yaml"]
+    D.append(cy)
+    # field names that do not start with a letter (C-style `_reserved`, `_pad0`, `__x`): the parser checks only top-level
+    # names, so these are accepted; all four outputs of ONE compile() call must still call the fields the same
+    D.append(one({"a.yaml": {"structs": [["US", [F("_seq", "uint32"), F("_pad0", "uint8", 4), F("value", "double")]]],
+                             "messages": [["UM", 2600, [F("_reserved", "int32"), F("s", "US"), F("__x", "int16", 2), F("x_", "int16", 2)]],
+                                          ["UR", 2601, "US"]]}}, tags=["underscore_fields"]))
     # import diamond, every section in every file
     D.append(one({"a.yaml": {"imports": ["b.yaml", "c.yaml"], "constants": [["NA", "ND + 1", 5]],
                              "messages": [["MA", 2000, [F("b", "SB"), F("c", "SC_"), F("arr", "uint16", "NA", 5)]]]},
@@ -280,10 +305,20 @@ def rand_closure(rng, p_f3: float = 0.08, p_f4: float = 0.08) -> Dict[str, Any]:
                 imports[names[i]].append(names[j])
     for n in names:
         rng.shuffle(imports[n])
+    # a file named a second time in one list, or again by a later importer (it is read once; the rest of the list still
+    # counts): not in last position, so something is resolved after the skip
+    repeated = False
+    for n in names:
+        if len(imports[n]) >= 1 and rng.random() < 0.25:
+            again = rng.choice([x for x in names[1:] if x != n] or imports[n])
+            imports[n].insert(rng.randrange(0, len(imports[n])), again)
+            repeated = True
     coredefs = rng.random() < 0.2
     cl = one({n: {"imports": imports[n]} for n in names}, root=names[0], coredefs=coredefs,
              auto_pad=rng.random() < 0.9)
     tags = set()
+    if repeated:
+        tags.add("imports_repeated")
     if coredefs:
         tags.add("coredefs")
     allow_f3 = rng.random() < p_f3
@@ -370,7 +405,11 @@ def rand_closure(rng, p_f3: float = 0.08, p_f4: float = 0.08) -> Dict[str, Any]:
             total += sz + 8
             if d and lv:
                 tags.add("array_of_struct")
-            fields.append([f"f{i}", ty, le, lv])
+            fname = f"f{i}"
+            if rng.random() < 0.08:       # a name that starts with an underscore (legal for the parser)
+                fname = rng.choice(["_f%d", "__r%d", "_%d_x", "_seq%d"]) % i
+                tags.add("underscore_fields")
+            fields.append([fname, ty, le, lv])
             depth = max(depth, d)
         return fields, depth, total
 
